@@ -78,10 +78,15 @@ CHECKS = {
              "PropertyHolds after EVERY step: outputs equal on every probe. Every selected model is built as a real ModelProto and run through "
              "optimize() and rotating variants (optimize_ir, fold_constants, remove_unused_nodes, rewrite, RewritePass, option tuples, proto vs IR); ORT "
              "original vs optimized on 3 probes (bit-exact for int/bool); plus 1905 ONNX backend-test models lifted seven ways with their recorded outputs "
-             "as a third oracle (exploration).",
+             "as a third oracle (exploration). Direction B: FoldApply.tla/FoldTrace.tla - every recorded run of FoldConstantsPass (env-guarded hooks in "
+             "_constant_folding.py: the derived, family and lifted library models going through the entry points, the repository's optimizer tests, "
+             "hand-written models) is EXECUTED by TLC event by event (SubstInput, Fold, InlineIf, Replace, Cleared, ReplaceOutput) on the model in token "
+             "form; C03 owns the clauses 'only deterministic non-control-flow nodes whose inputs are all constants are folded', 'an If is inlined only on a "
+             "constant condition and hands over exactly its taken branch', and 'the final model equals what the steps produce'.",
         note="sequence ops, Loop, functions/InlinePass, size gates and should_fold are covered by the library stage and the variants, not by the TLA+ "
              "model; originals ORT refuses are discarded and counted",
-        technique="TLA+ step-wise optimizer model with exact Eval, TLC exhaustive + simulation, models replayed through optimize() variants on ORT, plus lifted ONNX node-test models",
+        technique="TLA+ step-wise optimizer model with exact Eval, TLC exhaustive + simulation, models replayed through optimize() variants on ORT, plus lifted ONNX node-test models; "
+                  "TLC trace validation of recorded constant-folder executions against an operational TLA+ model (FoldApply.tla)",
         design_ref="DESIGN.md section 4 C03",
     ),
     "C04": dict(
@@ -90,10 +95,15 @@ CHECKS = {
              "raises, Graph!SSA and Graph!Scoped, and equality on an OVERRIDE probe for overridable initializer-inputs (never read as constants). The "
              "harness judges on the real code: no exception from optimize/rewrite/fold_constants (120 s watchdog), onnx.checker and Graph!WF (TLC) on the "
              "result, signature equal, and for models with overridable inputs runs with the default omitted and with an override value; same lifted "
-             "library stage (incl. inputs lifted to overridable defaults).",
+             "library stage (incl. inputs lifted to overridable defaults). Direction B: recorded rewriter executions are executed by TLC on "
+             "RewriteApply.tla and recorded constant-folder executions on FoldApply.tla (C04 owns: every value a step makes a node read is visible at "
+             "that node, no fold over a graph input, no If inlined on / no initializer dropped that is an overridable input, moved or new "
+             "initializers never overwrite an existing name, the result is topologically ordered with defined outputs, main inputs and the number "
+             "of outputs unchanged, the modified flag is truthful).",
         note="Graph.tla SSA is global (stricter than ONNX for sibling If branches): an SSA failure counts only if a scoped check also fails; "
              "termination is a watchdog, not a liveness property",
-        technique="TLA+ step-wise optimizer model (signature/WF/override invariants), TLC exhaustive + simulation, replay through optimize() variants + checker + GraphCheck + override runs",
+        technique="TLA+ step-wise optimizer model (signature/WF/override invariants), TLC exhaustive + simulation, replay through optimize() variants + checker + GraphCheck + override runs; "
+                  "TLC trace validation of recorded rewriter and constant-folder executions (RewriteApply.tla, FoldApply.tla)",
         design_ref="DESIGN.md section 4 C04",
     ),
     "C05": dict(
@@ -293,8 +303,9 @@ m = {
     "hooks": {
         "guard": "ONNXSCRIPT_VERIF",
         "enable": "checks run /repo's working tree through /venv (editable install); harness-side recorders wrap methods at run time; "
-                  "source hooks (onnxscript/_internal/_verif.py; call sites in converter.py and rewriter/_rewrite_rule.py) are active only when "
-                  "ONNXSCRIPT_VERIF=1 is set before onnxscript is imported; ./check sets it for C01, C02, C04 and C07",
+                  "source hooks (onnxscript/_internal/_verif.py; call sites in converter.py, rewriter/_rewrite_rule.py and "
+                  "optimizer/_constant_folding.py) are active only when ONNXSCRIPT_VERIF=1 is set before onnxscript is imported; ./check sets it for "
+                  "C01, C02, C03, C04 and C07",
         "baseline_off_cmd": BASE,
         "source_commits": hooks_commits,
         "add_only": True,
